@@ -202,7 +202,244 @@ class _Records(ast.NodeTransformer):
         return ast.copy_location(ast.Tuple(elts=[values[f] for f in fields], ctx=ast.Load()), node)
 
 
+# ------------------------------------------------------------------------------ annotations
+_CLASSIC = {"list": "List", "dict": "Dict", "set": "Set", "tuple": "Tuple", "frozenset": "FrozenSet", "type": "Type"}
+
+
+def _classic_annotation(node: ast.AST) -> ast.AST:
+    """``X | None`` -> ``Optional[X]``, ``A | B`` -> ``Union[A, B]``, ``list[X]`` -> ``List[X]``: one spelling for the rules"""
+    if isinstance(node, ast.BinOp) and isinstance(node.op, ast.BitOr):
+        parts: List[ast.AST] = []
+
+        def flatten(sub: ast.AST) -> None:
+            if isinstance(sub, ast.BinOp) and isinstance(sub.op, ast.BitOr):
+                flatten(sub.left)
+                flatten(sub.right)
+            else:
+                parts.append(_classic_annotation(sub))
+
+        flatten(node)
+        others = [p for p in parts if not (isinstance(p, ast.Constant) and p.value is None)]
+        if not others:
+            return node
+        inner = others[0] if len(others) == 1 else ast.Subscript(value=ast.Name(id="Union", ctx=ast.Load()), slice=ast.Tuple(elts=others, ctx=ast.Load()), ctx=ast.Load())
+        result: ast.AST = inner
+        if len(others) != len(parts):
+            result = ast.Subscript(value=ast.Name(id="Optional", ctx=ast.Load()), slice=inner, ctx=ast.Load())
+        for sub in ast.walk(result):
+            if not hasattr(sub, "lineno"):
+                ast.copy_location(sub, node)
+        return result
+    if isinstance(node, ast.Subscript):
+        if isinstance(node.value, ast.Name) and node.value.id in _CLASSIC:
+            node.value = ast.copy_location(ast.Name(id=_CLASSIC[node.value.id], ctx=ast.Load()), node.value)
+        if isinstance(node.slice, ast.Tuple):
+            node.slice.elts = [_classic_annotation(e) for e in node.slice.elts]
+        else:
+            node.slice = _classic_annotation(node.slice)  # type: ignore[assignment]
+    return node
+
+
+def _classic_annotations(tree: ast.Module) -> None:
+    for node in ast.walk(tree):
+        if isinstance(node, (ast.FunctionDef, ast.AsyncFunctionDef)):
+            arguments = node.args.posonlyargs + node.args.args + node.args.kwonlyargs + [a for a in (node.args.vararg, node.args.kwarg) if a]
+            for arg in arguments:
+                if arg.annotation is not None:
+                    arg.annotation = _classic_annotation(arg.annotation)  # type: ignore[assignment]
+            if node.returns is not None:
+                node.returns = _classic_annotation(node.returns)  # type: ignore[assignment]
+        elif isinstance(node, ast.AnnAssign):
+            node.annotation = _classic_annotation(node.annotation)  # type: ignore[assignment]
+
+
+# ------------------------------------------------------------------------------ named constants
+def module_constants(tree: ast.Module) -> Dict[str, ast.Constant]:
+    """names bound exactly once in the whole module - at its top level, to a literal - and never a parameter, an
+    import alias, a ``global`` / ``nonlocal`` or a handler name: ``NAME`` means the literal wherever it is read"""
+    bound: Dict[str, ast.Constant] = {}
+    for stmt in tree.body:
+        target = stmt.targets[0] if isinstance(stmt, ast.Assign) and len(stmt.targets) == 1 else stmt.target if isinstance(stmt, ast.AnnAssign) else None
+        value = getattr(stmt, "value", None)
+        if isinstance(target, ast.Name) and isinstance(value, ast.Constant) and isinstance(value.value, (str, int, float, bool, bytes, type(None))) and not target.id.startswith("__"):
+            bound[target.id] = value
+    if not bound:
+        return {}
+    stores: Dict[str, int] = {}
+    for node in ast.walk(tree):
+        names: List[str] = []
+        if isinstance(node, ast.Name) and isinstance(node.ctx, (ast.Store, ast.Del)):
+            names = [node.id]
+        elif isinstance(node, ast.arg):
+            names = [node.arg, node.arg]
+        elif isinstance(node, (ast.Global, ast.Nonlocal)):
+            names = list(node.names) * 2
+        elif isinstance(node, ast.ExceptHandler) and node.name:
+            names = [node.name, node.name]
+        elif isinstance(node, (ast.Import, ast.ImportFrom)):
+            names = [(alias.asname or alias.name).split(".")[0] for alias in node.names] * 2
+        elif isinstance(node, (ast.FunctionDef, ast.AsyncFunctionDef, ast.ClassDef)):
+            names = [node.name, node.name]
+        for name in names:
+            stores[name] = stores.get(name, 0) + 1
+    return {name: value for name, value in bound.items() if stores.get(name, 0) == 1}
+
+
+class _Constants(ast.NodeTransformer):
+    def __init__(self, constants: Dict[str, ast.Constant], module_aliases: Dict[str, Dict[str, ast.Constant]]):
+        self.constants = constants
+        self.module_aliases = module_aliases
+
+    def visit_Name(self, node: ast.Name) -> ast.AST:
+        if isinstance(node.ctx, ast.Load) and node.id in self.constants:
+            return ast.copy_location(ast.Constant(value=self.constants[node.id].value), node)
+        return node
+
+    def visit_Attribute(self, node: ast.Attribute) -> ast.AST:
+        if isinstance(node.ctx, ast.Load) and isinstance(node.value, ast.Name) and node.attr in self.module_aliases.get(node.value.id, {}):
+            return ast.copy_location(ast.Constant(value=self.module_aliases[node.value.id][node.attr].value), node)
+        return self.generic_visit(node)
+
+
+def fold_constants(tree: ast.Module, module_name: str, all_constants: Dict[str, Dict[str, ast.Constant]]) -> ast.Module:
+    """named literals (of this module, or imported from a module of the package) are replaced by the literal"""
+    own = dict(all_constants.get(module_name, {}))
+    imported: Dict[str, ast.Constant] = {}
+    aliases: Dict[str, Dict[str, ast.Constant]] = {}
+    package = module_name.split(".")
+    for node in ast.walk(tree):
+        if isinstance(node, ast.ImportFrom):
+            base = node.module or ""
+            if node.level:
+                base = ".".join(package[: len(package) - node.level] + ([base] if base else []))
+            for alias in node.names:
+                local = alias.asname or alias.name
+                if alias.name in all_constants.get(base, {}):
+                    imported[local] = all_constants[base][alias.name]
+                elif f"{base}.{alias.name}" in all_constants:
+                    aliases[local] = all_constants[f"{base}.{alias.name}"]
+        elif isinstance(node, ast.Import):
+            for alias in node.names:
+                if alias.asname and alias.name in all_constants:
+                    aliases[alias.asname] = all_constants[alias.name]
+    if imported or aliases:
+        # an imported name that the module binds again is not a constant here
+        rebound = {n.id for n in ast.walk(tree) if isinstance(n, ast.Name) and isinstance(n.ctx, (ast.Store, ast.Del))} | {a.arg for a in ast.walk(tree) if isinstance(a, ast.arg)}
+        imported = {k: v for k, v in imported.items() if k not in rebound}
+        aliases = {k: v for k, v in aliases.items() if k not in rebound}
+    constants = {**imported, **own}
+    if not constants and not aliases:
+        return tree
+    tree = _Constants(constants, aliases).visit(tree)
+    return tree
+
+
+def _is_private(name: str) -> bool:
+    return name.startswith("__") and not name.endswith("__")
+
+
+def class_constants(tree: ast.Module) -> Dict[str, Dict[str, ast.Constant]]:
+    """per class (simple name; nested classes too): names bound exactly once in the class body, to a literal"""
+    found: Dict[str, Dict[str, ast.Constant]] = {}
+    seen: Dict[str, int] = {}
+    for klass in ast.walk(tree):
+        if not isinstance(klass, ast.ClassDef):
+            continue
+        seen[klass.name] = seen.get(klass.name, 0) + 1
+        base_text = " ".join(ast.unparse(b) for b in klass.bases)
+        if klass.decorator_list or klass.keywords or any(word in base_text for word in ("Enum", "Flag", "NamedTuple", "TypedDict", "Protocol")):
+            continue  # members of such classes are not the literals they are written as
+        bound: Dict[str, ast.Constant] = {}
+        count: Dict[str, int] = {}
+        for stmt in ast.walk(klass):
+            if isinstance(stmt, ast.Name) and isinstance(stmt.ctx, (ast.Store, ast.Del)):
+                count[stmt.id] = count.get(stmt.id, 0) + 1
+        for stmt in klass.body:
+            target = stmt.targets[0] if isinstance(stmt, ast.Assign) and len(stmt.targets) == 1 else stmt.target if isinstance(stmt, ast.AnnAssign) else None
+            value = getattr(stmt, "value", None)
+            if isinstance(target, ast.Name) and isinstance(value, ast.Constant) and isinstance(value.value, (str, int, float, bool, bytes, type(None))):
+                bound[target.id] = value
+        bound = {name: value for name, value in bound.items() if count.get(name, 0) == 1}
+        if bound:
+            found[klass.name] = bound
+    return {name: bound for name, bound in found.items() if seen.get(name) == 1}
+
+
+def attribute_stores(tree: ast.Module) -> set:
+    """attribute names that are assigned or deleted through some object (``x.NAME = ...``), or named in setattr / delattr"""
+    names = set()
+    for node in ast.walk(tree):
+        if isinstance(node, ast.Attribute) and isinstance(node.ctx, (ast.Store, ast.Del)):
+            names.add(node.attr)
+        elif isinstance(node, ast.Call) and isinstance(node.func, ast.Name) and node.func.id in ("setattr", "delattr") and len(node.args) >= 2:
+            names.add(node.args[1].value if isinstance(node.args[1], ast.Constant) else "*")
+    return names
+
+
+def fold_class_constants(tree: ast.Module, module_name: str, all_classes: Dict[str, Dict[str, Dict[str, ast.Constant]]], stored: set) -> ast.Module:
+    """``Class.NAME`` (anywhere; the class of this module or imported from a module of the package) and, for private
+    names, ``self.NAME`` / ``cls.NAME`` inside the class are replaced by the literal that the class body binds NAME to -
+    provided nothing in the package assigns an attribute of that name"""
+    if "*" in stored:
+        return tree
+    visible: Dict[str, Dict[str, ast.Constant]] = dict(all_classes.get(module_name, {}))
+    package = module_name.split(".")
+    for node in ast.walk(tree):
+        if isinstance(node, ast.ImportFrom):
+            base = node.module or ""
+            if node.level:
+                base = ".".join(package[: len(package) - node.level] + ([base] if base else []))
+            for alias in node.names:
+                if alias.name in all_classes.get(base, {}):
+                    public = {k: v for k, v in all_classes[base][alias.name].items() if not _is_private(k)}
+                    if public:
+                        visible.setdefault(alias.asname or alias.name, public)
+    if not visible:
+        return tree
+    rebound = {n.id for n in ast.walk(tree) if isinstance(n, ast.Name) and isinstance(n.ctx, (ast.Store, ast.Del))} | {a.arg for a in ast.walk(tree) if isinstance(a, ast.arg)}
+    visible = {k: v for k, v in visible.items() if k not in rebound}
+
+    class Fold(ast.NodeTransformer):
+        def __init__(self) -> None:
+            self.classes: List[str] = []
+            self.receivers: List[Optional[str]] = []
+
+        def visit_ClassDef(self, node: ast.ClassDef) -> ast.AST:
+            self.classes.append(node.name)
+            self.receivers.append(None)
+            self.generic_visit(node)
+            self.receivers.pop()
+            self.classes.pop()
+            return node
+
+        def visit_FunctionDef(self, node: ast.FunctionDef) -> ast.AST:
+            first = node.args.args[0].arg if node.args.args else None
+            is_static = any(isinstance(d, ast.Name) and d.id == "staticmethod" for d in node.decorator_list)
+            directly_in_class = bool(self.classes) and self.receivers[-1] is None and len(self.receivers) == len(self.classes)
+            self.receivers.append(first if directly_in_class and not is_static and first in ("self", "cls") else (self.receivers[-1] if self.receivers and not directly_in_class else None) or "")
+            self.generic_visit(node)
+            self.receivers.pop()
+            return node
+
+        visit_AsyncFunctionDef = visit_FunctionDef  # type: ignore[assignment]
+
+        def visit_Attribute(self, node: ast.Attribute) -> ast.AST:
+            if isinstance(node.ctx, ast.Load) and isinstance(node.value, ast.Name) and node.attr not in stored:
+                owner = node.value.id
+                if owner in visible and node.attr in visible[owner]:
+                    if not _is_private(node.attr) or (self.classes and self.classes[-1] == owner):
+                        return ast.copy_location(ast.Constant(value=visible[owner][node.attr].value), node)
+                if _is_private(node.attr) and self.classes and self.receivers and owner == self.receivers[-1] and owner:
+                    consts = visible.get(self.classes[-1], {})
+                    if node.attr in consts:
+                        return ast.copy_location(ast.Constant(value=consts[node.attr].value), node)
+            return self.generic_visit(node)
+
+    return Fold().visit(tree)
+
+
 def normalise(tree: ast.Module, records: Optional[Dict[str, List[str]]] = None) -> ast.Module:
+    _classic_annotations(tree)
     if records:
         returning: Dict[str, str] = {}
         for func in ast.walk(tree):
